@@ -43,6 +43,7 @@ def history(case):
                 if not (gk == 'default' and method in ('complex', 'multicomplex')):
                     d = fresh(om, on, oo); d(y); d.method = method; d.order = order; d.n = n; scen['re-configured from another configuration'] = res(d, x)
                     d = fresh(om, on, oo); d.n = n; d.order = order; d.method = method; scen['re-configured before the first call'] = res(d, x)
+                    d = fresh(om, n, order); d(y); d(x); d.method = method; scen['only the method switched (n and order kept) after calls'] = res(d, x)
                 if gk != 'default':
                     g = gen(); d1 = fresh(om, on, oo, g); d2 = fresh(g=g); d1(y); scen['generator shared with another object'] = res(d2, x)
                     g = gen(); d2 = fresh(g=g); nd.Derivative(f, step=g, method=om, n=on, order=oo, num_steps=1, offset=2)
@@ -111,6 +112,19 @@ def shared(case):
         fb.fd_weights_all(np.array([-2.0, 0.5, 4.0]), 0.0, 1)
         if not np.array_equal(W1, keep):
             bad.append(dict(what='fd_weights_all result changed by a later call', before=keep.tolist(), after=np.asarray(W1).tolist()))
+        # (4b) weights depend on the arguments of THIS call only: stencils that differ by less than any fixed absolute resolution
+        #      (fine grids, tight clusters), asked for one after the other
+        from ndvc.concrete import lagrange_weights_exact
+        base = np.array([-2.0, -1.0, 0.0, 1.0, 2.0])
+        for xs_list, x0 in (([1e-11 * base, 4e-12 * base, 2.5e-11 * base], 0.0), ([np.array([0.0, 1e-11, 1.0, 2.0]), np.array([0.0, 3e-11, 1.0, 2.0])], 0.5),
+                            ([1000.0 + 1e-3 * base, 1000.0 + 2e-3 * base], 1000.0)):
+            for n_ in (1, 2):
+                for xs in xs_list:
+                    w = np.asarray(fb.fd_weights(xs, x0, n_), dtype=float)
+                    ref = np.array([float(v) for v in lagrange_weights_exact(xs, x0, n_)[n_]])
+                    if w.shape != ref.shape or not np.allclose(w, ref, rtol=1e-6, atol=1e-6 * np.max(np.abs(ref))):
+                        bad.append(dict(what='fd_weights on a sequence of nearby stencils', stencil=xs.tolist(), x0=x0, n=n_, got=w.tolist(), exact=ref.tolist()))
+                        break
         # (5) a step generator shared by two objects is not modified by constructing (or configuring) the second one
         gen = nd.MinStepGenerator(num_steps=10)
         d1 = nd.Derivative(np.exp, step=gen, full_output=True)
